@@ -135,11 +135,13 @@ deriving Repr
 
 def textEv (A : CAtoms) (i : Nat) (d : String) : BEv := .addText i (d == "") (A.blank i) (A.words i)
 
-/-- tests 1–5 of `visitElementNodeHandler`: not visible, social/sharing block, byline,
+/-- tests 1–6 of `visitElementNodeHandler`: not visible, foreign element named like a raw text
+element, social/sharing block, byline,
 unlikely candidate (only in skip-unlikelies mode), empty container -/
 def gateSkip (cfg : CCfg) (A : CAtoms) (anc : List String)
     (id : Nat) (tag : String) (attrs : List Attr) (kids : List Node) : Bool :=
   !visible A id tag attrs
+  || A.foreignRaw id
   || (getAttr attrs "class" == "sharing" || getAttr attrs "class" == "socialArea" || getAttr attrs "data-component" == "share")
   || A.byline id
   || (cfg.skipUnlikely && ((A.rxUnlikely id && !A.rxMaybe id && !anc.contains "table" && tag != "body" && tag != "a")
